@@ -57,7 +57,7 @@ theorem idxTrue_length (rows : List Row) (keep : Row → Bool) (k : Nat) :
 
 
 namespace Ex2
-/-! Witness partition of the open finding C03-shared-str-const-panic: `c1` dictionary-coded (a, b), `c2` packed strings
+/-! Witness partition of the former finding C03-shared-str-const-panic (fixed in /repo 186ef0c): `c1` dictionary-coded (a, b), `c2` packed strings
     (q0, q1); predicate `c2 = 'a' AND c1 <> 'a'` (the literal 'a' is consumed by InverseDictLookup and by a streaming
     comparison). -/
 def img0 : ColImg := { secs := [.i64], ops := [], dict := [] }
@@ -97,13 +97,8 @@ theorem frag : Frag fp part rows pred :=
   Frag.and _ _ (Frag.atom _ (Atom.strRight .eq 2 [97] col2 _ ref2 strCol2))
     (Frag.atom _ (Atom.strRight .ne 1 [97] col1 _ ref1 strCol1))
 
-theorem shared : sharedStrLiteral part pred = true := by
-  simp [sharedStrLiteral, strCmpLits, pred, ref1, ref2, col1, col2, ty1, ty2, isDictCodec, BT.nonNullable]
-
-theorem impl : implFilter fp part pred = .error .panic := by
-  have hs := shared
-  simp only [pred] at hs
-  simp only [implFilter, compile, pred, ref1, ref2, hs]
+theorem impl : implFilter fp part pred = .ok [] := by
+  simp only [implFilter, compile, pred, ref1, ref2]
   rfl
 end Ex2
 
